@@ -20,3 +20,5 @@ def rules(ctx):
     S.c06_r1_freed_merged(ctx)
     S.compaction_progress_rules(ctx)
     S.state_writer_rules(ctx)
+    S.mutator_release_rules(ctx)
+    S.free_verdict_rules(ctx)
